@@ -546,6 +546,9 @@ func (g *G) preNode(n *spec.Node, depth int) {
 			if s, ok := d.(string); ok && strings.HasPrefix(s, "!") {
 				return nil, fmt.Errorf("preprocess refused %q", s)
 			}
+			if sp, ok := d.(*string); ok && sp != nil && strings.HasPrefix(*sp, "!") {
+				return nil, fmt.Errorf("preprocess refused %q", *sp)
+			}
 			return coerceForPre(inner, d)
 		}
 	case 2:
@@ -555,9 +558,13 @@ func (g *G) preNode(n *spec.Node, depth int) {
 }
 
 func coerceForPre(inner *spec.Node, d any) (any, error) {
+	// in Validate the function is handed the pointer to the value: work on the pointee
+	if rv := reflect.ValueOf(d); rv.IsValid() && rv.Kind() == reflect.Ptr && !rv.IsNil() {
+		d = rv.Elem().Interface()
+	}
 	c := ref.CoercePrimitive(inner, d)
 	if !c.OK {
-		return nil, fmt.Errorf("cannot preprocess %v", d)
+		return nil, fmt.Errorf("cannot preprocess a %T", d)
 	}
 	return c.V, nil
 }
